@@ -234,10 +234,33 @@ def run_est(case, drv):
                     tab = [[Fraction(prng.randint(0, 6), 2) + Fraction(1, 2) for _ in range(q)] for _ in range(card[v])]
                     pc[names[v]] = [[float(x) for x in row] for row in tab]
                     pcm[v] = {"scope": [v] + ps, "card": [card[x] for x in [v] + ps], "vals": [rs(x) for row in tab for x in row]}
+                pck = case["pseudo_seed"] % 4
+                if pck >= 2:
+                    pc = {k: np.array(v, dtype=float) for k, v in pc.items()}       # hyper-parameter tables as float arrays
+                before = {k: np.array(v, dtype=float).copy() for k, v in pc.items()}
                 cpds = be.get_parameters(prior_type="dirichlet", pseudo_counts=pc, n_jobs=case["n_jobs"], weighted=weighted)
+                if pck == 3:
+                    # the same tables are used for a second estimation: the answer is the same closed form again
+                    cpds = BayesianEstimator(build_model(case), df, **sn_arg(case)).get_parameters(
+                        prior_type="dirichlet", pseudo_counts=pc, n_jobs=1, weighted=weighted)
+                for k in before:
+                    if not np.array_equal(np.array(pc[k], dtype=float), before[k]):
+                        return fail(f"dirichlet: the caller's pseudo-count table of {k} was modified by the estimation "
+                                    f"({before[k].tolist()} -> {np.array(pc[k], dtype=float).tolist()})", **tags)
             kind = est
         elif est in ("fit_mle", "fit_bayes"):
             m = build_model(case)
+            if case["pseudo_seed"] % 2:
+                # the network already carries (uniform) CPDs whose parents are listed in reverse order: fit replaces every one of them
+                from pgmpy.factors.discrete import TabularCPD
+                for v in range(len(names)):
+                    ps = sorted(parents_of(case, v), key=lambda u: str(names[u]), reverse=True)
+                    q = 1
+                    for p_ in ps:
+                        q *= card[p_]
+                    m.add_cpds(TabularCPD(names[v], card[v], [[1.0 / card[v]] * q for _ in range(card[v])],
+                                          evidence=[names[u] for u in ps] or None, evidence_card=[card[u] for u in ps] or None,
+                                          state_names={names[u]: list(labels[u]) for u in [v] + ps}))
             if est == "fit_mle":
                 m.fit(df, estimator=MaximumLikelihoodEstimator, n_jobs=case["n_jobs"], **sn_arg(case))
                 kind = "mle"
@@ -252,6 +275,9 @@ def run_est(case, drv):
             except Exception as e:
                 return fail(f"fitted network does not validate: {e}", **tags)
             cpds = m.get_cpds()
+            if len(cpds) != len(names):
+                return fail(f"after fit the network holds {len(cpds)} CPDs for {len(names)} nodes", **tags)
+            cpds = [m.get_cpds(x) for x in names]          # what a user (and every inference engine) reads back per node
         else:
             d = build_model(case, DAG)
             m = d.fit(df, **sn_arg(case))
